@@ -99,6 +99,11 @@ func DeleteBeforeAssociations(db *gorm.DB) {
 
 				_, foreignValues := schema.GetIdentityFieldValuesMap(db.Statement.Context, db.Statement.ReflectValue, foreignFields)
 				column, values := schema.ToQueryValues(table, relForeignKeys, foreignValues)
+				if len(values) == 0 {
+					// the value has no key: it has no join rows, and nothing is sent
+					// for it (like the has one / has many branch above)
+					continue
+				}
 				queryConds = append(queryConds, clause.IN{Column: column, Values: values})
 
 				if db.AddError(tx.Clauses(clause.Where{Exprs: queryConds}).Delete(modelValue).Error) != nil {
